@@ -31,6 +31,8 @@ class RefModel:
         self.mentioned = resp.get("mentioned", [])
         self.wf = resp.get("wf")
         self.gen_rhs_valid = resp.get("gen_rhs_valid")
+        self.helper_clash_free = resp.get("helper_clash_free")
+        self.gen_rl_valid = resp.get("gen_rl_valid")
         self.order = self._topo()
 
     def deriv_of(self, state):
@@ -124,8 +126,12 @@ def check_wf(ctx: Ctx, rm: "RefModel", text: str):
         ctx.broke("correspondence", "an accepted model for which code was generated is not ModelWF in the Lean loader model", text)
     elif rm.wf and rm.gen_rhs_valid is False:
         ctx.broke("proof-obligation", "GenValid.genRhs_valid contradicted by evaluation (checkRhs (Impl.genRhs m) = false on a ModelWF model)", text)
+    if rm.wf and rm.helper_clash_free and rm.gen_rl_valid is False:
+        ctx.broke("proof-obligation", "GenValidRL.rl_generators_valid contradicted by evaluation (checkScheme (Impl.genGRL/genHybrid m) = false on a ModelWF model without helper-name clashes)", text)
     if rm.wf:
         ctx.count("models_wf")
+    if rm.wf and rm.helper_clash_free:
+        ctx.count("models_rl_generators_checked")
 
 
 def module_layout(dicts: dict) -> dict:
